@@ -515,6 +515,17 @@ func (e *Engine) verifyFuncPass(key string, pass int, proved map[string]bool) *F
 			c.unsupported(token.NoPos, "assert %q was not evaluated on any path (site %q never reached or unknown names)", a.Label, a.At)
 		}
 	}
+	// a ghost statement or lemma use whose site never fired is a mistake in the contract (misspelt site): not silent
+	for _, g := range spec.Ghosts {
+		if !c.assertSeen["ghost|"+g.At+"|"+g.Stmt] {
+			c.unsupported(token.NoPos, "ghost statement %q: site %q was never reached", g.Stmt, g.At)
+		}
+	}
+	for _, u := range spec.Uses {
+		if !c.assertSeen["use|"+u.At+"|"+u.Call] {
+			c.unsupported(token.NoPos, "use %s: site %q was never reached", u.Call, u.At)
+		}
+	}
 	res.Obligations = c.obls
 	res.Unsupported = c.unsupp
 	res.Decls = c.decls
